@@ -186,6 +186,52 @@ pub struct Stats {
 	pub failed_plays: u64,
 }
 
+/// a top-level track of either kind (the rules are the same for both)
+enum AnyTrackH {
+	Plain(TrackHandle),
+	Spatial(kira::track::SpatialTrackHandle),
+}
+impl AnyTrackH {
+	fn play<D: SoundData>(&mut self, d: D) -> Result<D::Handle, PlaySoundError<D::Error>> {
+		match self {
+			AnyTrackH::Plain(h) => h.play(d),
+			AnyTrackH::Spatial(h) => h.play(d),
+		}
+	}
+	fn num_sounds(&self) -> usize {
+		match self {
+			AnyTrackH::Plain(h) => h.num_sounds(),
+			AnyTrackH::Spatial(h) => h.num_sounds(),
+		}
+	}
+	fn sound_capacity(&self) -> usize {
+		match self {
+			AnyTrackH::Plain(h) => h.sound_capacity(),
+			AnyTrackH::Spatial(h) => h.sound_capacity(),
+		}
+	}
+	fn add_sub_track(&mut self, b: TrackBuilder) -> Result<TrackHandle, kira::ResourceLimitReached> {
+		match self {
+			AnyTrackH::Plain(h) => h.add_sub_track(b),
+			AnyTrackH::Spatial(h) => h.add_sub_track(b),
+		}
+	}
+	fn pause(&mut self) {
+		let t = kira::Tween { duration: std::time::Duration::ZERO, ..Default::default() };
+		match self {
+			AnyTrackH::Plain(h) => h.pause(t),
+			AnyTrackH::Spatial(h) => h.pause(t),
+		}
+	}
+	fn resume(&mut self) {
+		let t = kira::Tween { duration: std::time::Duration::ZERO, ..Default::default() };
+		match self {
+			AnyTrackH::Plain(h) => h.resume(t),
+			AnyTrackH::Spatial(h) => h.resume(t),
+		}
+	}
+}
+
 struct SoundH {
 	stop: Arc<AtomicBool>,
 }
@@ -217,8 +263,7 @@ fn history_case(ctx: &mut Ctx, r: &mut Rng, stats: &mut Stats) -> Result<(), Str
 	let ledger = Arc::new(Ledger::default());
 	let mut rig = Rig::new(RigConfig { sample_rate: 8000, ibs: 16, channels: 2, capacities: caps }, MainTrackBuilder::new().sound_capacity(main_sound_cap).with_effect(LEffectB(LEffect { _t: Token::new(&ledger) })));
 	let mut hist: Vec<String> = vec![format!("caps {:?} main sounds {}", caps, main_sound_cap)];
-	// (handle, its sounds, its sound capacity, handles of its child tracks: dropped together with it)
-	let mut tracks: Pool<(TrackHandle, Pool<SoundH>, usize, Vec<TrackHandle>)> = Pool::new(caps.sub_track_capacity);
+	let mut tracks: Pool<(AnyTrackH, Pool<SoundH>, usize, Vec<TrackHandle>)> = Pool::new(caps.sub_track_capacity);
 	let mut sends: Pool<SendTrackHandle> = Pool::new(caps.send_track_capacity);
 	let mut clocks: Pool<ClockHandle> = Pool::new(caps.clock_capacity);
 	let mut mods: Pool<LModHandle> = Pool::new(caps.modulator_capacity);
@@ -229,6 +274,19 @@ fn history_case(ctx: &mut Ctx, r: &mut Rng, stats: &mut Stats) -> Result<(), Str
 	for _ in 0..n_ops {
 		stats.ops += 1;
 		match r.below(16) {
+			0 | 1 if r.chance(0.15) && !tracks.live_idx().is_empty() => {
+				// pause or resume a live track: removal of its finished sounds and dropped children does not wait for a resume
+				let live = tracks.live_idx();
+				let ti = live[r.below(live.len() as u64) as usize];
+				let (h, _, _, _) = tracks.items[ti].handle.as_mut().unwrap();
+				if r.chance(0.6) {
+					h.pause();
+					hist.push(format!("pause track #{}", ti));
+				} else {
+					h.resume();
+					hist.push(format!("resume track #{}", ti));
+				}
+			}
 			0 | 1 if r.chance(0.3) && !tracks.live_idx().is_empty() => {
 				// a child track under a live track; it is dropped together with its parent (same interval): the parent's
 				// slot must still be free after the next callback
@@ -244,8 +302,16 @@ fn history_case(ctx: &mut Ctx, r: &mut Rng, stats: &mut Stats) -> Result<(), Str
 			}
 			0 | 1 => {
 				let sc = cap(r);
-				let res = rig.mgr.add_sub_track(TrackBuilder::new().sound_capacity(sc).with_effect(LEffectB(LEffect { _t: Token::new(&ledger) })));
-				hist.push(format!("add_sub_track(sound cap {}) -> {}", sc, res.is_ok()));
+				// plain or spatial (the listener may or may not still exist: irrelevant for resource accounting)
+				// (spatial tracks use the id of a listener that exists at this moment; it may be dropped later)
+				let lid = listeners.live_idx().first().map(|i| listeners.items[*i].handle.as_ref().unwrap().id());
+				let spatial = r.chance(0.3) && lid.is_some();
+				let res = if spatial {
+					rig.mgr.add_spatial_sub_track(lid.unwrap(), Vec3::ZERO, SpatialTrackBuilder::new().sound_capacity(sc).with_effect(LEffectB(LEffect { _t: Token::new(&ledger) }))).map(AnyTrackH::Spatial)
+				} else {
+					rig.mgr.add_sub_track(TrackBuilder::new().sound_capacity(sc).with_effect(LEffectB(LEffect { _t: Token::new(&ledger) }))).map(AnyTrackH::Plain)
+				};
+				hist.push(format!("add_{}sub_track(sound cap {}) -> {}", if spatial { "spatial_" } else { "" }, sc, res.is_ok()));
 				expect_create("sub-track", &res, tracks.count(), tracks.cap, &hist)?;
 				match res {
 					Ok(h) => tracks.add((h, Pool::new(sc), sc, vec![])),
